@@ -4,6 +4,7 @@
 #include <scan_common.h>
 #include <spec_local.h>
 
+int g_prevch;             /* the byte before g_cur, -1 if none */
 #define STEPF SPEC5321_STEP
 #define AFTER1 STEPF(g_state, g_la)
 
@@ -23,8 +24,8 @@ __CPROVER_ensures(__CPROVER_return_value <= 0 && __CPROVER_return_value > -EEAV_
 #else
 int is_5321_local(const char *start, const char *end)
 __CPROVER_requires(RANGE_REQ(start, end, MAXLEN))
-__CPROVER_requires(g_state == L_START && g_pos == 0 && g_cur == -1 && g_la == LA_AT(start, end))
-__CPROVER_assigns(g_state, g_pos, g_la, g_cur)
+__CPROVER_requires(g_state == L_START && g_pos == 0 && g_cur == -1 && g_prevch == -1 && g_la == LA_AT(start, end))
+__CPROVER_assigns(g_state, g_pos, g_la, g_cur, g_prevch)
 /* accept => the automaton accepts exactly the bytes start[0..g_len)  (or the scan met a NUL, outside the property's domain) */
 __CPROVER_ensures((__CPROVER_return_value == 0) ==> (g_pos == g_len ? L_ACC(g_state) : (g_pos < g_len && g_la == 0)))
 /* reject => the automaton rejects: it is dead, or ends non-accepting, or dies / ends non-accepting on the next byte */
@@ -40,20 +41,22 @@ __CPROVER_ensures(__CPROVER_return_value == -EEAV_LPART_CTRL_CHAR ==> (g_cur >= 
 __CPROVER_ensures(__CPROVER_return_value == -EEAV_LPART_TOO_MANY_DOTS ==> (g_cur == '.' && g_la == '.'))
 __CPROVER_ensures(__CPROVER_return_value == -EEAV_LPART_MISPLACED_DOT ==> (g_cur == '.' && (g_pos == 1 || g_pos == g_len)))
 __CPROVER_ensures(__CPROVER_return_value == -EEAV_LPART_SPECIAL ==> ((L_IS_SPECIAL(g_cur) && g_cur != '"' && g_cur != '.') || g_cur == ' '))
+/* C12/C15: the codes are pinned by disjoint conditions on the offending byte, so on inputs without DQUOTE and backslash all modes report the same code */
+__CPROVER_ensures(__CPROVER_return_value == -EEAV_LPART_MISPLACED_QUOTE ==> (g_cur == '"' || g_prevch == '"'))
 __CPROVER_ensures(__CPROVER_return_value == -EEAV_LPART_UNQUOTED ==> ((g_pos == g_len || g_la == 0) && (g_state == L_QTEXT || g_state == L_QPAIR)))
 ;
 
 #define EAV_VERIF_LOOP_is_5321_local \
-    __CPROVER_assigns(cp, ch, qpair, quote, g_state, g_pos, g_la, g_cur) \
+    __CPROVER_assigns(cp, ch, qpair, quote, g_state, g_pos, g_la, g_cur, g_prevch) \
     __CPROVER_loop_invariant(IN_OBJ(cp, start, end) \
         && g_pos == (size_t)(cp - start) && (quote==0||quote==1) && (qpair==0||qpair==1) && (!quote ==> !qpair) \
-        && g_la == LA_AT(cp, end) \
+        && g_la == LA_AT(cp, end) && (cp > start ==> g_cur == BYTE_AT(cp - 1)) \
         && g_state == (quote ? (qpair ? L_QPAIR : L_QTEXT) : ((cp==start || cp[-1]=='.') ? L_START : (cp[-1]=='"') ? L_QEND : L_ATOM)) \
         && ((!quote && cp > start && cp[-1]=='.') ==> (cp < end && cp[0] != '.'))) \
     __CPROVER_decreases(end - cp)
 
 #define EAV_VERIF_STEP_is_5321_local \
-    g_cur = g_la; g_state = STEPF(g_state, g_cur); g_pos++; g_la = LA_AT(cp + 1, end);
+    g_prevch = g_cur; g_cur = g_la; g_state = STEPF(g_state, g_cur); g_pos++; g_la = LA_AT(cp + 1, end);
 
 #endif
 
